@@ -112,6 +112,16 @@ def run(ctx):
                         {'kind': 'span', 'key': f['key'], 'msg': f['msg'], 'a': f['a'], 'lb': f['lb'], 'ub': f['ub'],
                          'lb_is_int': f['lb_is_int'], 'classes': [f['array_class'], f['bounds_class']]})
         new_span += st == 'violation'
+    n_args = 0
+    seen_keys = set()
+    for c in data.get('args', []):
+        if c['oracle']:
+            n_args += 1
+            if c['key'] not in seen_keys:
+                seen_keys.add(c['key'])
+                ctx.report(c['key'], 'hypercomplex.span: ' + c['oracle'], {'kind': 'span-args', 'case': c})
+    ctx.oblige('property oracle: %d pairs of span() calls with the same ndarray bound objects (float64 and int64, lb != 0) leave their '
+               'arguments bit-identical and return the same, in-range result the second time' % len(data.get('args', [])), n_args == 0, '')
     n_sp = 0
     for c in data['space']:
         if c['oracle'] and n_sp < 3:
@@ -131,6 +141,9 @@ def run(ctx):
                                                                      sum(c['evaluations'] for c in data['runs'])),
                n_sp == 0 and n_run == 0, '')
     dist = dict(data['dist'])
+    for c in data.get('args', []):
+        k = 'span-twice/%s/%s' % (c['bounds_class'], c['dtype'])
+        dist[k] = dist.get(k, 0) + 1
     for c in data['space']:
         k = 'space/%s/%s' % (c['bounds'], c['draw'])
         dist[k] = dist.get(k, 0) + 1
@@ -142,9 +155,10 @@ def run(ctx):
     ctx.cov['rule'] = ('span: all 64 corners of {0,1}^(2x3) + (n,d) in (1,1),(2,3),(3,2),(1,4),(5,8),(2,1),(4,4) x bound classes generic/negative/'
                        'huge(8e307)/overflow(ub-lb=inf)/degenerate(lb=ub)/tiny/offset/int-lists/wide(1e+-20) x array classes zeros/ones/corner/'
                        'denormal/near-ones/dyadic/mixed/uniform, each with a norm-only partner (other rows replaced, exact rows permuted) and a '
-                       'shrunk-row partner; non-trivial = anything but a uniform array with generic bounds; HyperSpace: scripted uniform draws at '
+                       'shrunk-row partner; span called twice with the same float64/int64 ndarray bound objects (arguments bit-identical afterwards, second result = first and in range); non-trivial = anything but a uniform array with generic bounds; HyperSpace: scripted uniform draws at '
                        'both ends, positions with +-inf/huge/-0.0/denormal/bound values; 6-iteration PSO/SCA tasks')
-    ctx.count(data['span_cases'] + len(data['space']) + len(data['runs']), data['nontrivial'] + len(data['space']) + len(data['runs']))
+    extra = len(data.get('args', [])) + len(data['space']) + len(data['runs'])
+    ctx.count(data['span_cases'] + extra, data['nontrivial'] + extra)
     ctx.cov['exhaustive'] = False
     if not ok:
         return
